@@ -539,7 +539,6 @@ func TestVerifC20Replay(t *testing.T) {
 		return
 	}
 	variants := kit.EnvInt("VERIF_C20_VARIANTS", 1)
-	corrupt := kit.Env("VERIF_C20_CORRUPT", "") // self-test of the binding: falsify one expectation
 	seed := uint64(kit.Seed())
 	type job struct {
 		idx  uint64
@@ -572,9 +571,6 @@ func TestVerifC20Replay(t *testing.T) {
 					}
 					mu.Unlock()
 					continue
-				}
-				if corrupt == "keepAlive" && row.Exp.KeepAlive == "N" {
-					row.Exp.KeepAlive = "disabled"
 				}
 				sig, nontrivial := c20Sig(&row)
 				for v := 0; v < variants; v++ {
@@ -613,6 +609,30 @@ func TestVerifC20Replay(t *testing.T) {
 		t.Fatal(err)
 	}
 	res.Stat("rows", int64(idx))
+	// binding self-test: rows whose KeepAlive expectation is falsified on purpose must be noticed. The
+	// outcome goes to the statistics only (tools/props/c20.py refuses to give a verdict if it is missed).
+	if pp := kit.Env("VERIF_C20_PROBE", ""); pp != "" {
+		dir := c20Scratch(t)
+		err := kit.ReadLines(pp, func(line []byte) error {
+			var row c20Row
+			if err := json.Unmarshal(line, &row); err != nil {
+				return err
+			}
+			row.Exp.KeepAlive = "disabled"
+			res.Stat("probe:rows", 1)
+			fs, _, _ := c20Run(dir, &row, seed, func(string) {}, false)
+			for _, f := range fs {
+				if f.Key == "KeepAlive:pos" {
+					res.Stat("probe:noticed", 1)
+					break
+				}
+			}
+			return nil
+		})
+		if err != nil {
+			t.Fatal(err)
+		}
+	}
 }
 
 func c20ReplayFile(t *testing.T, dir, path string) {
